@@ -138,10 +138,9 @@ Proof.
   unfold InSubtree. destruct (a =? r); [apply nb_ret|]. intros s.
   pose proof (ensureConnections_nb fx s) as H. destruct (ensureConnections fx s) as [pa o]. cbn in H.
   destruct o; cbn; try discriminate; try (exfalso; apply H; reflexivity).
-  destruct (bs_get (pa_bs pa) a); cbn; try discriminate.
-  destruct (idx_get (pa_idx pa) (a, s0)); cbn; try discriminate.
-  destruct (bs_get (pa_bs pa) r); cbn; try discriminate.
-  destruct (idx_get (pa_idx pa) (r, s1)); cbn; try discriminate.
+  repeat match goal with
+         | |- snd (match ?x with _ => _ end) <> _ => destruct x; cbn; try discriminate
+         end.
   apply inSubtree_nb.
 Qed.
 #[export] Hint Resolve InSubtree_nb : nb.
